@@ -78,14 +78,16 @@ def session(ctx, binary, n, rng, kind, cert=None):
        close      plain TCP; the client sends everything in one go and closes at once
        tls12close the same through the TLS proxy with TLS 1.2 on both legs (data and close_notify arrive together)
        tls13      an ordinary session through the TLS proxy (TLS 1.3)
-       second     after an ordinary session the client leaves and a second client uses the same proxy process"""
+       second     after an ordinary session the client leaves and a second client uses the same proxy process
+       quiet      the proxy is started with -q (message log off)
+       loglevel0  the message log is turned off through /status/loglevel/0 before the traffic starts"""
     d = ctx.path("sess%d" % n)
     os.makedirs(d)
     tls = kind.startswith("tls")
     closing = kind.endswith("close")
     skind = kind
-    if tls or closing or kind == "second":
-        kind = rng.choice(["valid", "mixed", "html"])
+    if tls or closing or kind in ("second", "quiet", "loglevel0"):
+        kind = rng.choice(["valid", "mixed", "many"]) if kind in ("quiet", "loglevel0") else rng.choice(["valid", "mixed", "html"])
     up = socket.socket()
     up.setsockopt(socket.SOL_SOCKET, socket.SO_REUSEADDR, 1)
     up.bind(("127.0.0.1", 0))
@@ -100,7 +102,7 @@ def session(ctx, binary, n, rng, kind, cert=None):
                    "tls": {"country": ["GB"], "org": ["verif"], "common_name": "localhost"}}, f)
     errf = open(os.path.join(d, "stderr"), "wb")
     outf = open(os.path.join(d, "stdout"), "wb")
-    p = subprocess.Popen([binary] + (["-s"] if tls else []) + ["-c", cfg], cwd=d, stdout=outf, stderr=errf)
+    p = subprocess.Popen([binary] + (["-s"] if tls else []) + (["-q"] if skind == "quiet" else []) + ["-c", cfg], cwd=d, stdout=outf, stderr=errf)
     ev = dict(kind=skind, alive=True, stalled=False, report_ok=False, report_msgs=[], slot_client=[], slot_server=[], slot_messages=[])
     c2s = client_stream(rng, kind)
     s2c = b"ICY 200 OK\r\n\r\n" + bytes(rng.getrandbits(8) for _ in range(rng.randint(0, 300))) + rng.choice(HTML) if kind != "random" else bytes(rng.getrandbits(8) for _ in range(rng.randint(1, 3000)))
@@ -119,6 +121,12 @@ def session(ctx, binary, n, rng, kind, cert=None):
                 time.sleep(0.025)
         if cli is None:
             raise vlib.Inconclusive("cannot connect to the proxy (exit %s): %s" % (p.poll(), open(os.path.join(d, "stderr"), "rb").read()[-500:]))
+        if skind == "loglevel0":
+            # the operator turns the message log off through the control port before the traffic starts
+            try:
+                urllib.request.urlopen("http://127.0.0.1:%d/status/loglevel/0" % cport, timeout=10).read()
+            except Exception as e:          # noqa
+                ev["loglevel_error"] = repr(e)[:100]
         up.settimeout(10)
         srv, _ = up.accept()
         if tls:
@@ -344,8 +352,8 @@ def run(ctx, replay):
     binary = build_binary(ctx, "proxy")
     rng = random.Random(ctx.seed * 104729 + 19)
     kinds = ["valid", "malformed", "html", "random", "mixed", "many", "bulk", "burst", "bigburst", "bulk", "mixed", "html", "burst",
-             "close", "tls12close", "tls13", "tls12close", "close", "second"]
-    nsess = 95 if ctx.thorough() else 19
+             "close", "tls12close", "tls13", "tls12close", "close", "second", "quiet", "loglevel0"]
+    nsess = 105 if ctx.thorough() else 21
     cert = ctx.path("upstream")
     ctx.drive(ctx.build_harness(), ["gencert", cert])
     events = []
